@@ -117,20 +117,38 @@ def build(work, tier):
     for c in LISTS:
         proofs += fixpoint_proofs(kit, c, classes, kind='bounded', unwind=4, bound_text=LIST_BOUND + '; foreign elements with more matching children are outside the stand-in')
     proofs += table_proofs(kit)
+    # IQ extension: loop-free payload codecs of QXmppIq subclasses and the QXmppIq header
+    import iq
+    kits = [kit]
+    for fn in (iq.payload_proofs, iq.header_proofs, iq.item_proofs):
+        k, ps = fn('C02', work, mk_proof, 'fixpoint')
+        kits.append(k)
+        proofs += ps
     if tier != 'thorough':
         # quick tier: the finding-restricted runs of the two largest composites only repeat what the member codec's own run
         # reports, and the (bounded, 160 s) fixpoint run of Sasl2::StreamFeature is left to the thorough tier
         proofs = [p for p in proofs if not ((getattr(p, 'finding', None) and p.id.split('_fixpoint')[0] in ('Sasl2Success', 'Sasl2StreamFeature')) or p.id.startswith('Sasl2StreamFeature_'))]
-    text_all = open(os.path.join(QT, 'xml.h')).read() + open(os.path.join(QT, 'conv.h')).read() + open(os.path.join(QT, 'opaque.h')).read() + codec.MODEL_GLUE
-    npad = sum(t.count('xw_pad(') for t in kit.texts.values())
+    text_all = open(os.path.join(QT, 'xml.h')).read() + open(os.path.join(QT, 'conv.h')).read() + open(os.path.join(QT, 'opaque.h')).read() + codec.MODEL_GLUE + iq.TZO_MODEL + iq.HDR_STUBS + iq.presence.STUBS + iq.ITEM_MODEL
+    npad = sum(t.count('xw_pad(') for k in kits for t in k.texts.values())
+    functions, seen = [], set()
+    for k in kits:
+        for f in k.b.functions:
+            if f['cname'] not in seen:
+                seen.add(f['cname'])
+                functions.append(f)
+    fired = {}
+    for k in kits:
+        for r, n in k.b.fired.items():
+            fired[r] = fired.get(r, 0) + n
     return {
-        'proofs': proofs, 'functions': kit.b.functions, 'dropped': kit.b.dropped, 'fired': kit.b.fired,
+        'proofs': proofs, 'functions': functions, 'dropped': [d for k in kits for d in k.b.dropped], 'fired': fired,
         'hooks': [HOOKS_NOTE % npad],
-        'assumed': ASSUMED + ['every proof runs with CBMC\'s safety checks on the lowered text for ALL inputs: array bounds, pointer validity, signed overflow, division by zero, shift width, and the std::array::at index obligation (assertion safety.at_index_in_range)'],
+        'assumed': ASSUMED + iq.ASSUMED_IQ + ['every proof runs with CBMC\'s safety checks on the lowered text for ALL inputs: array bounds, pointer validity, signed overflow, division by zero, shift width, and the std::array::at index obligation (assertion safety.at_index_in_range)'],
         'assumes': scan_assumes(text_all),
         'not_covered': [
             'termination and resource use of Qt\'s DOM / XML reader, crashes inside Qt, deep nesting, huge attributes (strings are opaque values here)',
-            'the client\'s dispatch path (QXmppOutgoingClient / QXmppClient) and all large parsers (QXmppMessage, QXmppPresence, QXmppIq, QXmppStanza::Error, Jingle, data forms, pubsub events, QXmppStreamFeatures::parse): not lowered; members default-initialised only by parse (QXmppStanzaErrorPrivate::maxFileSize, QXmppE2eeMetadataPrivate::encryption) are NOT examined',
+            'of the QXmppIq family: the header (bounded stand-in: at most 2 extended addresses in the foreign element; payload hooks, <error/> and extended addresses are contract-only stubs) and the payload parsers of QXmppBindIq, QXmppVersionIq, QXmppNonSASLAuthIq, QXmppEntityTimeIq, QXmppIbbOpenIq / CloseIq / DataIq are covered, nothing else of it',
+            'the client\'s dispatch path (QXmppOutgoingClient / QXmppClient) and all large parsers (QXmppMessage, QXmppPresence, every other QXmppIq subclass, QXmppStanza::Error, Jingle, data forms, pubsub events, QXmppStreamFeatures::parse): not lowered; members default-initialised only by parse (QXmppStanzaErrorPrivate::maxFileSize, QXmppE2eeMetadataPrivate::encryption) are NOT examined',
             'the .at() call sites in QXmppIq::toXml, QXmppMessage::toXml / serializeExtensions, QXmppPresence::toXml, Jingle, MIX, pubsub: only the range postcondition of the enumFromString instantiations feeding d->type / d->state / d->marker is proved; that every other writer of those members (setters, constructors) keeps them in range is not',
             'StreamErrorElement::fromDom (std::variant, structured binding, parseHostAddress): only its enumFromString<StreamError, 25> instantiation and streamErrorToString',
             'foreign elements with more than 2 matching children in the four list-valued codecs (bounded stand-in)',
